@@ -149,6 +149,8 @@ _INSTALLED = []
 def install(repo):
     """make `optiland_sym` (twin) and `optiland` (real, same tree) importable"""
     repo = os.path.abspath(repo)
+    if _STATE['repo'] == repo and _INSTALLED:
+        return
     _STATE['repo'] = repo
     if not _INSTALLED:
         f = _Finder()
